@@ -74,6 +74,20 @@ def run_one(m):
                            stderr=subprocess.STDOUT, text=True)
         out = r.stdout
         res["exit"] = r.returncode
+        if m.get("equivalent") and os.environ.get("VERIF_SELFTEST_ALLPROPS") and r.returncode == 0:
+            # a behaviour-preserving edit must keep *every* claimed property's check silent
+            man = json.load(open(os.path.join(VERIF, "MANIFEST.json")))
+            for c in man["checks"]:
+                if c["property_id"] == m["property"]:
+                    continue
+                r2 = subprocess.run([sys.executable, "-m", "verif.check", c["property_id"], "--tier", "quick"],
+                                    cwd=VERIF, env=env, stdout=subprocess.PIPE, stderr=subprocess.STDOUT, text=True)
+                if r2.returncode != 0:
+                    r = r2
+                    out = "[%s] " % c["property_id"] + r2.stdout
+                    res["exit"] = r2.returncode
+                    res["alarm_in"] = c["property_id"]
+                    break
         viol = [l for l in out.splitlines() if l.strip().startswith("violation:")]
         res["reported"] = [v.strip()[:300] for v in viol[:5]]
         if m.get("equivalent"):
